@@ -49,7 +49,13 @@ type MCase struct {
 	Keys   []MKey  `json:"keys"`
 	Steps  []MStep `json:"steps"`
 	FailAt int     `json:"fail_at"`
+	// Remote: the persistent tier is the real gRPC client (remote.Storage) talking to an in-process
+	// StorageService; RemoteFaults are injected by that service (no gate faults then).
+	Remote       bool     `json:"remote_tier,omitempty"`
+	RemoteFaults []RFault `json:"remote_faults,omitempty"`
 }
+
+var modelCfg = hybrid.DefaultConfig()
 
 func refCategory(cfg *hybrid.Config, key string) string {
 	has := func(l []string) bool {
@@ -96,7 +102,10 @@ type mworld struct {
 	g             *vkit.Gate
 	cache, cache2 *vkit.GateCache
 	shared        *vkit.GateCache
-	pers          *vkit.GatePersistent
+	pers          stypes.PersistentStorage
+	rawGet        func(string) (any, bool)
+	extFault      func() string // kind of the fault the persistent tier has injected so far ("" = none)
+	closers       []func()
 	h, h2         *hybrid.Storage
 	sharedOn      bool
 }
@@ -111,15 +120,25 @@ func (w *mworld) mk(cache *vkit.GateCache) *hybrid.Storage {
 	return hybrid.NewWithSharedCache(context.Background(), cache, sh, w.pers, cfg)
 }
 
-func newMWorld(shared bool) *mworld {
-	w := &mworld{g: vkit.NewGate(), sharedOn: shared}
+func newMWorld(shared bool, c MCase) (*mworld, string) {
+	w := &mworld{g: vkit.NewGate(), sharedOn: shared, extFault: func() string { return "" }}
 	w.g.Grace = 1500 * time.Microsecond
-	w.pers = vkit.NewGatePersistent(w.g, "pers")
+	if c.Remote {
+		svc, rs, why := newRemoteTier(c.RemoteFaults)
+		if why != "" {
+			return nil, why
+		}
+		w.pers, w.rawGet, w.extFault = rs, svc.rawGet, svc.faultKind
+		w.closers = append(w.closers, func() { rs.Close(); svc.stop() })
+	} else {
+		gp := vkit.NewGatePersistent(w.g, "pers")
+		w.pers, w.rawGet = gp, gp.RawGet
+	}
 	if shared {
 		w.shared = vkit.NewGateCache(w.g, "shared")
 	}
 	w.restart()
-	return w
+	return w, ""
 }
 
 func (w *mworld) restart() {
@@ -144,13 +163,29 @@ func (w *mworld) close() {
 	if w.shared != nil {
 		w.shared.Raw().Close()
 	}
+	for _, f := range w.closers {
+		f()
+	}
 }
 
 type mval struct {
 	present bool
-	unknown bool // an operation on the key failed part-way: not asserted until the next full overwrite / delete
-	s       string
-	l       []string
+	unknown bool // an operation on the key failed part-way: not asserted until the next full overwrite / delete ...
+	// ... except that reads must not go backwards: oldStr is what the key read before the failed
+	// operation, sawNew is set once a read has returned something else (the attempted value or what a
+	// part-applied operation left). After that, reading oldStr again is an older value brought back.
+	oldStr string
+	sawNew bool
+	s      string
+	l      []string
+}
+
+func (m *mval) fail(isList bool) {
+	if !m.unknown {
+		m.oldStr = m.str(isList)
+		m.sawNew = false
+	}
+	m.unknown = true
 }
 
 func (v mval) str(isList bool) string {
@@ -176,7 +211,11 @@ type mresult struct {
 func runModel(c MCase) mresult {
 	var r mresult
 	cfg := hybrid.DefaultConfig()
-	w := newMWorld(c.Shared)
+	w, why := newMWorld(c.Shared, c)
+	if w == nil {
+		r.key, r.detail = "C14/harness/remote-tier-not-established", why
+		return r
+	}
 	defer w.close()
 	w.g.FailAt = c.FailAt
 	w.g.Activate()
@@ -314,6 +353,9 @@ func runModel(c MCase) mresult {
 			shape = "tier-read-error-as-miss"
 		case faultStep != "":
 			shape = "persistent-fault-swallowed/" + strings.TrimPrefix(faultStep, "pers.")
+		case w.extFault() != "":
+			shape = "remote-tier-fault/" + w.extFault()
+			r.faulted = true
 		case lateWB:
 			shape = "async-writeback"
 		}
@@ -326,7 +368,7 @@ func runModel(c MCase) mresult {
 		switch op {
 		case "set", "setlist":
 			if realErr {
-				m.unknown = true
+				m.fail(isList)
 				break
 			}
 			if err != nil {
@@ -336,13 +378,13 @@ func runModel(c MCase) mresult {
 			*m = mval{present: true, s: st.Val, l: []string{st.Val, "z"}}
 		case "delete":
 			if realErr {
-				m.unknown = true
+				m.fail(isList)
 				break
 			}
 			*m = mval{}
 		case "append":
 			if realErr {
-				m.unknown = true
+				m.fail(isList)
 				break
 			}
 			if err != nil {
@@ -352,13 +394,16 @@ func runModel(c MCase) mresult {
 			if !m.unknown {
 				m.present = true
 				m.l = append(append([]string{}, m.l...), st.Val)
+			} else {
+				m.oldStr = "\x00no-longer-comparable" // a later successful mutation: the pre-failure value may legitimately reappear
 			}
 		case "remove":
 			if realErr {
-				m.unknown = true
+				m.fail(isList)
 				break
 			}
 			if m.unknown {
+				m.oldStr = "\x00no-longer-comparable"
 				break
 			}
 			if !m.present {
@@ -386,7 +431,17 @@ func runModel(c MCase) mresult {
 			}
 			m.l = nl
 		case "get", "getlist":
-			if realErr || m.unknown {
+			if realErr {
+				break
+			}
+			if m.unknown {
+				// only whole-value writes (set / setlist / delete) leave a two-point outcome space
+				if got != m.oldStr {
+					m.sawNew = true
+				} else if m.sawNew {
+					fail("read-went-backwards-after-failed-write", fmt.Sprintf("after the failed operation a read returned a different value, now %s is back (the value from before the operation)", got))
+					return r
+				}
 				break
 			}
 			if want := m.str(isList); got != want {
@@ -411,8 +466,8 @@ func runModel(c MCase) mresult {
 			}
 		}
 		// ---- tier-class oracle after a successful write
-		if (op == "set" || op == "setlist" || op == "append") && err == nil && !m.unknown && faultStep == "" {
-			_, inPers := w.pers.RawGet(key)
+		if (op == "set" || op == "setlist" || op == "append") && err == nil && !m.unknown && faultStep == "" && w.extFault() == "" {
+			_, inPers := w.rawGet(key)
 			inShared := false
 			if w.shared != nil {
 				if ok, _ := w.shared.Raw().Exists(key); ok {
@@ -537,4 +592,34 @@ func TestModelEveryKey(t *testing.T) {
 		}
 	}
 	vkit.Exhaustive("model-fixed-history-over-every-configured-prefix", true)
+}
+
+// TestModelFaultSweep: fixed histories with the single tier fault placed at every tier operation in
+// turn (exhaustive over the fault position), for the persistent-backed categories, with and without a
+// shared cache, scalar and list. The histories read, evict and read again after every write, so that a
+// value left behind in one tier by a failed operation shows up as a read that goes backwards.
+func TestModelFaultSweep(t *testing.T) {
+	idx := 0
+	scalar := []MStep{{Op: "set", Val: "a"}, {Op: "set", Val: "b"}, {Op: "get"}, {Op: "evict"}, {Op: "get", Node: 1}, {Op: "delete"}, {Op: "get"}, {Op: "evict"}, {Op: "get"}, {Op: "exists", Node: 1}}
+	list := []MStep{{Op: "set", Val: "a"}, {Op: "append", Val: "b"}, {Op: "get"}, {Op: "evict"}, {Op: "get", Node: 1}, {Op: "remove", Val: "b"}, {Op: "get"}, {Op: "evict"}, {Op: "get"}, {Op: "append", Val: "c", Node: 1}, {Op: "get"}, {Op: "evict"}, {Op: "get"}}
+	for _, key := range []string{"tunnox:user:k7", "tunnox:port_mapping:k7", "tunnox:mappings:list"} {
+		for _, shared := range []bool{false, true} {
+			for _, isList := range []bool{false, true} {
+				hist := scalar
+				if isList {
+					hist = list
+				}
+				space := fmt.Sprintf("model-fault-sweep/%s/shared=%v/list=%v", key, shared, isList)
+				for at := 0; at < 64; at++ {
+					idx++
+					if !vkit.Mine(idx) {
+						continue
+					}
+					c := MCase{Model: true, Shared: shared, FailAt: at, Keys: []MKey{{Key: key, IsList: isList}}, Steps: hist}
+					reportModel(t, c, runModel(c))
+				}
+				vkit.Exhaustive(space, true)
+			}
+		}
+	}
 }
